@@ -117,6 +117,10 @@ def sources(svg):
         "cubic": lambda: svg.CubicBezier(P(0, 0), P(7, 5), P(-4, 1.5), P(11, -6)),
         "arc": lambda: svg.Arc(P(0, 0), 10, 5, 30, 0, 1, P(7, 4)),
         "path": path, "path2": path2, "group-with-use": group_with_use,
+        "circle-zero": lambda: svg.Circle(4, -3, 0, transform="scale(3)", stroke="red", stroke_width=2),
+        "ellipse-zero": lambda: svg.Ellipse(4, -3, 0, 2.5, transform="rotate(30) scale(2,3)", stroke="red"),
+        "path-kw": lambda: svg.Path(d="M1,1 L3,-2 Q7,5 -4,1.5 z", stroke="red"),
+        "path-dict": lambda: svg.Path({"d": "M1,1 L3,-2 z M5,5 L9,9", "fill": "blue"}),
         # falsy but meaningful attribute values: a stroke width of 0, a fully transparent fill, an empty id
         "rect-zeros": lambda: svg.Rect(2, 3, 7, 5, stroke="red", stroke_width=0, fill="#00000000", id=""),
         "path-zeros": lambda: svg.Path("M0,0 L1,1 Q2,2 3,0", stroke="blue", stroke_width=0.0, fill=svg.Color(0, 0, 0, 0)),
@@ -155,6 +159,7 @@ def derivations(svg):
         "type(x)(x)": lambda x: type(x)(x) if isinstance(x, (svg.Shape, svg.Point, svg.Matrix, svg.Color, svg.Viewbox)) else NotImplemented,
         "x+seg": lambda x: (x + svg.Line(svg.Point(50, 50), svg.Point(60, 60))) if isinstance(x, (svg.Path, svg.PathSegment, svg.Subpath)) else NotImplemented,
         "x+str": lambda x: (x + "L 9 9") if isinstance(x, (svg.Path, svg.PathSegment, svg.Subpath)) else NotImplemented,
+        "path+x": lambda x: (svg.Path("M-9,-9 L-8,-8") + x) if isinstance(x, (svg.Path, svg.Subpath)) else NotImplemented,
         "str+x": lambda x: ("M-9,-9 L-8,-8" + x) if isinstance(x, (svg.Path, svg.PathSegment, svg.Subpath)) else NotImplemented,
         "seg+x": lambda x: (svg.Line(svg.Point(-9, -9), svg.Point(-8, -8)) + x) if isinstance(x, (svg.Path, svg.Subpath)) else NotImplemented,
         "~x": lambda x: ~x if isinstance(x, svg.Matrix) else NotImplemented,
